@@ -23,7 +23,7 @@ A graph is `<n> <edges>`: nodes `0..n-1`, edges `id,src,tgt,w,ori` separated by 
                                          `n,<v>` addNode · `e,<id>,<src>,<tgt>,<w>,<ori>` addEdge · `r,<s>,<t|_>,<cut>,<0|1>` run_routing_forward
                                          · `d,<s>,<t>,<cut>,<0|1>` shortest_distance · `l,<s>,<cut>,<0|1>` list form · `a,<cut>,<0|1>`
                                          all_shortest_distances · `p,<cut>` prepare · `q,<s>,<t>` prepared_shortest_distance ·
-                                         `h,<s>,<t>` has_prepared_shortest_distance · `s,<s>,<cut>` sub_network (TOPOLOGIC) ·
+                                         `h,<s>,<t>` has_prepared_shortest_distance · `s,<s>,<cut>` sub_network (TOPOLOGIC) · `v` save_prep + load_prep ·
                                          `u` (read the caller's output_dict; `<0|1>` = whether that dictionary is passed);
                                          reply per op (`;`): `ok` / `err` / `f:<poids,…>|<visite,…>` / `v:<d>` / `l:<d,…>` /
                                          `t:<s>.<v>.<d>,…` / `b:<0|1>` / `s:<node ids>|<edge ids>` -/
@@ -209,6 +209,7 @@ def op? (s : String) : Option (Op Rat) :=
   | ["q", a, t] => do let a ← a.toNat?; let t ← t.toNat?; some (.prepared a t)
   | ["h", a, t] => do let a ← a.toNat?; let t ← t.toNat?; some (.hasPrepared a t)
   | ["s", a, c] => do let a ← a.toNat?; let c ← cut? c; some (.sub a c)
+  | ["v"] => some .saveLoad
   | _ => none
 
 def sessRun (n : Nat) (σ : Sess Rat) : List String → Option (List String)
